@@ -51,6 +51,9 @@ pub struct AppenderSc {
   pub enc: Enc,
   /// byte sink: yields per write
   pub slow: u8,
+  /// byte sink: virtual milliseconds every write takes (a slow disk / pipe)
+  #[serde(default)]
+  pub slow_ms: u16,
 }
 
 #[derive(Clone, Debug, Serialize, Deserialize, PartialEq)]
@@ -195,6 +198,7 @@ thread_local! {
 struct Sink {
   ix: u8,
   slow: u8,
+  slow_ms: u16,
   buf: Arc<Mutex<(Vec<u8>, usize)>>,
 }
 
@@ -203,6 +207,10 @@ impl Write for Sink {
     for _ in 0..self.slow {
       ctx::fault_fired(FaultKind::SlowParty);
       shuttle::thread::yield_now();
+    }
+    if self.slow_ms > 0 {
+      ctx::fault_fired(FaultKind::SlowParty);
+      fibre_verif_rt::thread::sleep(Duration::from_millis(self.slow_ms as u64));
     }
     self.buf.lock().unwrap().0.extend_from_slice(data);
     Ok(data.len())
@@ -235,7 +243,7 @@ fn log_main() {
   let sc2 = sc.clone();
   let sink = move |name: &str| -> Box<dyn Write + Send> {
     let ix: usize = name[1..].parse().unwrap();
-    Box::new(Sink { ix: ix as u8, slow: sc2.appenders[ix].slow, buf: bufs2[ix].clone() })
+    Box::new(Sink { ix: ix as u8, slow: sc2.appenders[ix].slow, slow_ms: sc2.appenders[ix].slow_ms, buf: bufs2[ix].clone() })
   };
   let mut pipe = match fibre_logging::init::verif::build(&yaml, &sink) {
     Ok(p) => p,
@@ -587,6 +595,8 @@ impl Family for LogFamily {
         block: rng.chance(3, 4),
         enc: *rng.pick(&[Enc::Json, Enc::JsonFlat, Enc::PatternDefault, Enc::PatternPlain]),
         slow: if rng.chance(1, 4) { rng.range(1, 3) as u8 } else { 0 },
+        // (<= 15 events x 200 ms stays well inside the 5 s shutdown timeout)
+        slow_ms: if self.faults && rng.chance(1, 4) { *rng.pick(&[60u16, 200]) } else { 0 },
       })
       .collect();
     let mut loggers = vec![];
@@ -741,6 +751,11 @@ impl Family for LogFamily {
       if a.slow > 0 {
         let mut c = sc.clone();
         c.appenders[ai].slow = 0;
+        out.push(c);
+      }
+      if a.slow_ms > 0 {
+        let mut c = sc.clone();
+        c.appenders[ai].slow_ms = 0;
         out.push(c);
       }
     }
